@@ -16,7 +16,7 @@ MANIFEST = dict(
          "Cancellation at the suspension points inside __aenter__/__aexit__ (entering disposables, rollback, "
          "exiting disposables, waiting for members) is ScopeLife.tla's CancelNotLost / CancelAbortsMembers, model-"
          "checked and replayed by this check as well. Every edge is replayed into real tasks; the victim's final "
-         "Task.cancelled(), the members' states and the answer of ctx.check_cancellation() are compared. Also: cancellation in the wake-up window of one scope (ScopeLife.tla: the last awaited thing completes and the task is cancelled before it runs again - ReleaseEnterLate / ReleaseExitLate / ChildEndLate), replayed by stepping the loop handle by handle; half of the CtxCancel steps run a handled nested failure between the request and the check.",
+         "Task.cancelled(), the members' states and the answer of ctx.check_cancellation() are compared. Also: cancellation in the wake-up window of one scope (ScopeLife.tla: the last awaited thing completes and the task is cancelled before it runs again - ReleaseEnterLate / ReleaseExitLate / ChildEndLate), replayed by stepping the loop handle by handle; half of the CtxCancel steps run a handled nested failure between the request and the check. Also (constant Turn): one leaf member may answer its cancellation with an exception of its own - cancelled, it fails - and its owner's own cancellation, delivered at a gate or while waiting for that member, still comes out.",
     technique="TLA+ spec + TLC exhaustive model checking of cancellation placements; edge-complete graph replay into the "
               "implementation through a gated interpreter",
     design="5/C07")
